@@ -283,11 +283,21 @@ def run_case_(h, built, work, params, kfmodes, tag, trace=False, no_witness=Fals
     uws = list(h.unwindset) + ([params['_unwindset']] if params.get('_unwindset') else [])
     if uws:
         cmd += ['--unwindset', ','.join(uws)]
-    if h.sat:
+    backend = params.get('_backend')
+    if backend == 'cvc5int':
+        # SMT back end with bit-vector arithmetic solved as modular integer arithmetic (tools/smtshim/cvc5 adds
+        # --solve-bv-as-int=sum): decides multiply/divide-by-constant kernels that bit blasting does not
+        cmd += ['--cvc5', '--slice-formula']
+    elif backend == 'cadical':
+        cmd += ['--sat-solver', 'cadical']
+    elif backend == 'kissat':
+        cmd += ['--external-sat-solver', 'kissat']
+    elif h.sat:
         cmd += h.sat
     if trace:
         cmd += ['--trace', '--stop-on-fail']
-    rc, out, dt, rss = run(cmd, timeout=h.timeout, mem_gb=h.mem_gb, rusage=True)
+    env = dict(os.environ, PATH=os.path.join(VERIF, 'tools', 'smtshim') + os.pathsep + os.environ.get('PATH', ''))
+    rc, out, dt, rss = run(cmd, timeout=h.timeout, mem_gb=h.mem_gb, rusage=True, env=env)
     try: os.unlink(gb)
     except OSError: pass
     r = {'params': params, 'wall': dt + dt0, 'rss_kb': rss, 'out': out if trace else None}
